@@ -122,3 +122,14 @@ package ast
 //@   prop C01
 //@   ensures [value] result == true
 //@   assigns nothing
+//@
+//@ # ---- C02/C05: the alternatives of a production become productions in the order in which they are written ----
+//@ func NewSyntaxProd
+//@   prop C02 C05
+//@   requires [args] typeis(prodId, *token.Token) && as(prodId, *token.Token) != nil && typeis(alts, SyntaxAlts) && len(as(alts, SyntaxAlts)) >= 0
+//@   ensures [alternatives] result1 == nil && len(result0) == len(as(alts, SyntaxAlts)) && all(i, 0, len(result0), result0[i] != nil && result0[i] >= old(alloc()) && result0[i].Body == as(alts, SyntaxAlts)[i] && result0[i].Id == str(as(prodId, *token.Token).Lit))
+//@   assigns nothing
+//@   loop 1
+//@     invariant [prods] len(prods) == len(alts1) && arr(prods) >= old(alloc())
+//@     invariant [so-far] all(k, 0, range_i1, prods[k] != nil && prods[k] >= old(alloc()) && prods[k] < alloc() && prods[k].Body == alts1[k] && prods[k].Id == pid)
+//@
